@@ -45,7 +45,7 @@ def c13_jobs(tier, seed):
             if short == 1 and k > (3 if tier == "quick" else 5):
                 continue
             jobs.append({"pkg_short": "flamego", "body": "VH_C13_kstep", "params": {"k": k, "short": short},
-                         "max_paths": 400000, "shards": 1 if k <= 3 else (6 if k == 4 else 16), "shard_depth": 6})
+                         "max_paths": 400000})
     jobs.append({"pkg_short": "flamego", "body": "VH_C13_step", "params": {}})
     return jobs
 
@@ -209,7 +209,7 @@ def routing_jobs(pid, tier, seed):
     for rs in curated:
         add(rs, n, "curated")
     menu = SEG_MENU
-    ndraw = {"quick": 24, "thorough": 160}[tier]
+    ndraw = {"quick": 20, "thorough": 160}[tier]
     drawn = 0
     guard = 0
     while drawn < ndraw and guard < 10000:
@@ -217,7 +217,7 @@ def routing_jobs(pid, tier, seed):
         rs = random_route_set(rng, menu)
         if not rs:
             continue
-        add(rs, n if tier == "quick" else n - 1, "seeded")
+        add(rs, n - 1, "seeded")
         drawn += 1
     return jobs
 
